@@ -75,6 +75,15 @@ CLAIMS = {
                 '(admitted differences frozen).',
         not_decided='forward o inverse = identity for all N (loop induction), rounding error of the round trip, slot-0 = (M, COM) beyond the component isomorphism',
         design_ref='3/C12'),
+    'C17': dict(
+        module='c17', level='other',
+        technique='who-reads-what over the differ and reader (clang AST + record layouts + descriptor table): pointer-blind compare, ignore-set exactness, accumulation form, allocation discipline',
+        decided='every persisted array whose element type has pointer members rewritten at load time (derived from the reader: particles, var_config) is compared by a branch '
+                'that does not read those members; the ignore prefix of the differ matches exactly the wall-clock rows; difference flags only accumulate inside loops, both diff '
+                'passes exist and reb_particle_diff reads every non-pointer member; every pointer the reader fills comes from malloc/realloc; copy is serialise+init+deserialise; '
+                'all sites deciding whether the tree is in use (so that a restored or copied simulation rebuilds it) test the same modules.',
+        not_decided='interleavings of operations on a copy and its source; padding bytes; bitwise identical evolution of copy and source (runtime)',
+        design_ref='3/C17'),
     'C18': dict(
         module='c18', level='other',
         technique='ABI layout comparison: clang record layouts vs a ctypes layout calculator over the _fields_ AST; enum/dictionary and prototype/CFUNCTYPE table agreement',
